@@ -792,6 +792,124 @@ Proof.
       apply umemb_uin, H, spec_pairb_iff, E.
 Qed.
 
+(* ---------- the position-level checks equal the name-level ones ---------- *)
+Lemma sidx_eqb cols a b : In a cols -> In b cols -> N.eqb (sidx cols a) (sidx cols b) = str_eqb a b.
+Proof.
+  induction cols as [|c t IH]; [intros []|]. intros Ha Hb. cbn [sidx].
+  destruct (str_eqb a c) eqn:Ea; destruct (str_eqb b c) eqn:Eb.
+  - apply str_eqb_eq in Ea, Eb. subst. rewrite str_eqb_refl. reflexivity.
+  - apply str_eqb_eq in Ea. subst. rewrite (str_eqb_sym c b), Eb. destruct (sidx t b); reflexivity.
+  - apply str_eqb_eq in Eb. subst. rewrite Ea. destruct (sidx t a); reflexivity.
+  - rewrite <- IH.
+    + apply eq_true_iff_eq. rewrite !N.eqb_eq. lia.
+    + destruct Ha as [->|Ha]; [rewrite str_eqb_refl in Ea; discriminate|exact Ha].
+    + destruct Hb as [->|Hb]; [rewrite str_eqb_refl in Eb; discriminate|exact Hb].
+Qed.
+
+Definition closedp (cols : list str) (p : pair) : Prop := In (fst p) cols /\ In (snd p) cols.
+
+Lemma closed_pairsb_Forall cols l : closed_pairsb cols l = true <-> Forall (closedp cols) l.
+Proof.
+  unfold closed_pairsb. rewrite forallb_forall, Forall_forall. unfold closedp.
+  split; intros H p Hp; specialize (H p Hp); [apply andb_true_iff in H|apply andb_true_iff]; rewrite !memb_In in *; exact H.
+Qed.
+
+Lemma ixp_pair_eqb cols p q : closedp cols p -> closedp cols q -> ipair_eqb (ixp cols p) (ixp cols q) = pair_eqb p q.
+Proof. intros [H1 H2] [H3 H4]. unfold ipair_eqb, pair_eqb, ixp. cbn [fst snd]. rewrite !sidx_eqb by assumption. reflexivity. Qed.
+
+Lemma ixp_upair_eqb cols p q : closedp cols p -> closedp cols q -> iupair_eqb (ixp cols p) (ixp cols q) = upair_eqb p q.
+Proof.
+  intros Hp Hq. unfold iupair_eqb, upair_eqb. rewrite (ixp_pair_eqb cols p q Hp Hq).
+  destruct Hp as [H1 H2], Hq as [H3 H4]. unfold ixp. cbn [fst snd]. rewrite !sidx_eqb by assumption. reflexivity.
+Qed.
+
+Lemma iucount_map cols p l : closedp cols p -> Forall (closedp cols) l ->
+  iucount (ixp cols p) (map (ixp cols) l) = ucount p l.
+Proof.
+  intros Hp Hl. induction Hl as [|q l Hq _ IH]; [reflexivity|]. cbn [map]. rewrite ucount_cons, <- IH.
+  unfold iucount. cbn [filter]. rewrite (ixp_upair_eqb cols p q Hp Hq). destruct (upair_eqb p q); reflexivity.
+Qed.
+
+Lemma iumemb_map cols p l : closedp cols p -> Forall (closedp cols) l ->
+  iumemb (ixp cols p) (map (ixp cols) l) = umemb p l.
+Proof.
+  intros Hp Hl. induction Hl as [|q l Hq _ IH]; [reflexivity|]. unfold iumemb, umemb in *. cbn [map existsb].
+  rewrite IH, (ixp_upair_eqb cols p q Hp Hq). reflexivity.
+Qed.
+
+Definition closedr (cols : list str) (r : row) : Prop := closedp cols (rp r).
+
+Lemma ixr_row_eqb cols r r' : closedr cols r -> closedr cols r' -> irow_eqb (ixr cols r) (ixr cols r') = row_eqb r r'.
+Proof. intros H H'. unfold irow_eqb, row_eqb, ixr. cbn [fst snd]. rewrite (ixp_pair_eqb cols _ _ H H'). reflexivity. Qed.
+
+Lemma ircount_map cols r rows : closedr cols r -> Forall (closedr cols) rows ->
+  ircount (ixr cols r) (map (ixr cols) rows) = rcount r rows.
+Proof.
+  intros Hr Hl. induction Hl as [|q l Hq _ IH]; [reflexivity|]. cbn [map]. rewrite rcount_cons, <- IH.
+  unfold ircount. cbn [filter]. rewrite (ixr_row_eqb cols r q Hr Hq). destruct (row_eqb r q); reflexivity.
+Qed.
+
+Lemma ixr_swap3 cols r : iswap3 (ixr cols r) = ixr cols (swap3 r).
+Proof. destruct r as [[a b] s]. reflexivity. Qed.
+
+Lemma closedr_swap3 cols r : closedr cols r -> closedr cols (swap3 r).
+Proof. destruct r as [[a b] s]. unfold closedr, closedp, rp, swap3. cbn [fst snd]. tauto. Qed.
+
+Lemma forallb_map_comp {A B} (f : B -> bool) (g : A -> B) l : forallb f (map g l) = forallb (fun x => f (g x)) l.
+Proof. induction l as [|x l IH]; [reflexivity|]. cbn [map forallb]. rewrite IH. reflexivity. Qed.
+
+Lemma forallb_ext_in' {A} (f g : A -> bool) l : (forall x, In x l -> f x = g x) -> forallb f l = forallb g l.
+Proof.
+  induction l as [|x l IH]; intros H; [reflexivity|]. cbn [forallb]. rewrite (H x (or_introl eq_refl)), IH; [reflexivity|].
+  intros y Hy. apply H. now right.
+Qed.
+
+Lemma closedb_Forall cols rows : closedb cols rows = true <-> Forall (closedr cols) rows.
+Proof.
+  unfold closedb. rewrite forallb_forall, Forall_forall. unfold closedr, closedp.
+  split; intros H r Hr; specialize (H r Hr); [apply andb_true_iff in H|apply andb_true_iff]; rewrite !memb_In in *; exact H.
+Qed.
+
+Theorem rows_okb_fast_eq cols h cands cap' rows : closed_pairsb cols cands = true ->
+  rows_okb_fast cols h cands cap' rows = rows_okb cols h cands cap' rows.
+Proof.
+  intros Hc. unfold rows_okb_fast, rows_okb. rewrite Hc, andb_true_r.
+  destruct (closedb cols rows) eqn:Hr; [|reflexivity]. cbn [andb].
+  apply closed_pairsb_Forall in Hc. apply closedb_Forall in Hr.
+  assert (Hrp : Forall (closedp cols) (map rp rows)).
+  { rewrite Forall_forall in *. intros p Hp. apply in_map_iff in Hp. destruct Hp as [r [<- H]]. apply Hr. exact H. }
+  assert (Eirps : map fst (map (ixr cols) rows) = map (ixp cols) (map rp rows)).
+  { rewrite !map_map. apply map_ext. intros r. reflexivity. }
+  assert (Hin : forall r, In r rows -> closedr cols r) by (apply Forall_forall; exact Hr).
+  destruct (is_const h).
+  - f_equal. rewrite forallb_map_comp. apply forallb_ext_in'. intros r Hr'. rewrite Eirps.
+    change (fst (ixr cols r)) with (ixp cols (rp r)).
+    rewrite !iucount_map; try assumption; try reflexivity; apply Hin; exact Hr'.
+  - f_equal; [f_equal; [f_equal|]|]; rewrite forallb_map_comp; apply forallb_ext_in'; intros r Hr'.
+    + rewrite ixr_swap3, !ircount_map; try assumption; try reflexivity; [apply closedr_swap3|]; apply Hin; exact Hr'.
+    + rewrite ircount_map; [|apply Hin; exact Hr'|exact Hr]. f_equal. f_equal.
+      destruct (Hin r Hr') as [H1 H2]. unfold ixr, ixp. cbn [fst snd]. apply sidx_eqb; assumption.
+    + rewrite Eirps. change (fst (ixr cols r)) with (ixp cols (rp r)).
+      rewrite !iucount_map; try assumption; try reflexivity; apply Hin; exact Hr'.
+Qed.
+
+Theorem cands_okb_fast_eq cols h tro label cands : closed_pairsb cols cands = true ->
+  cands_okb_fast cols h tro label cands = cands_okb cols h tro label cands.
+Proof.
+  intros Hc. unfold cands_okb_fast, cands_okb. rewrite Hc. cbn [andb]. f_equal.
+  apply closed_pairsb_Forall in Hc. apply forallb_ext_in'. intros [a b] Hp. apply in_all_pairs in Hp.
+  rewrite iumemb_map; [reflexivity| |exact Hc]. exact Hp.
+Qed.
+
+Lemma cands_okb_fast_closed cols h tro label cands :
+  cands_okb_fast cols h tro label cands = true -> closed_pairsb cols cands = true.
+Proof. unfold cands_okb_fast. rewrite !andb_true_iff. tauto. Qed.
+
+Lemma candidates_closedb cols h tro label : In label cols -> closed_pairsb cols (candidates cols h tro label) = true.
+Proof.
+  intros Hl. apply closed_pairsb_Forall, Forall_forall. intros [a b] Hp. apply (cands_closed cols h tro label Hl a b Hp).
+Qed.
+
 Lemma select_run_ok cands cap' nb : forall s, Forall (selected_ok cands cap') (select_run s cands cap' nb).
 Proof. induction nb as [|k IH]; intros s; [constructor|]. cbn [select_run]. constructor; [apply select_ok|apply IH]. Qed.
 
@@ -805,8 +923,10 @@ Theorem check_sound c o : In (c_label c) (c_cols c) -> C06_check c o = true ->
   /\ Forall (rows_spec (c_cols c) (c_heur c) (o_cands o) (o_cap o)) (o_rows o).
 Proof.
   intros Hl H. unfold C06_check in H. rewrite !andb_true_iff in H. destruct H as [[H1 H2] H3].
+  pose proof (cands_okb_fast_closed _ _ _ _ _ H1) as Hc. rewrite (cands_okb_fast_eq _ _ _ _ _ Hc) in H1.
   split; [apply (cands_okb_iff _ _ _ _ _ Hl); exact H1|]. split; [apply Z.eqb_eq; exact H2|].
-  apply Forall_forall. intros rows Hr. rewrite forallb_forall in H3. apply rows_okb_iff, H3, Hr.
+  apply Forall_forall. intros rows Hr. rewrite forallb_forall in H3. apply rows_okb_iff.
+  rewrite <- (rows_okb_fast_eq _ _ _ _ _ Hc). apply H3, Hr.
 Qed.
 
 (* the transcription is accepted by the checker, whatever the scorer answers *)
@@ -816,9 +936,11 @@ Theorem model_ok c scores : In (c_label c) (c_cols c) ->
   C06_check c (C06_model c scores) = true.
 Proof.
   intros Hl Hs. unfold C06_check, C06_model. cbn [o_cands o_cap o_rows]. rewrite !andb_true_iff. split; [split|].
-  - apply (cands_okb_iff _ _ _ _ _ Hl). intros p. reflexivity.
+  - unfold C06_cands. rewrite (cands_okb_fast_eq _ _ _ _ _ (candidates_closedb _ (c_heur c) (c_tro c) _ Hl)).
+    apply (cands_okb_iff _ _ _ _ _ Hl). intros p. reflexivity.
   - apply Z.eqb_refl.
   - apply forallb_forall. intros rows Hr. apply in_map_iff in Hr. destruct Hr as [[e s] [<- Hes]].
+    unfold C06_cands. rewrite (rows_okb_fast_eq _ _ _ _ _ (candidates_closedb _ (c_heur c) (c_tro c) _ Hl)).
     apply rows_okb_iff. cbn [fst snd]. apply build_rows_spec.
     + apply cands_closed. exact Hl.
     + pose proof (select_run_ok (C06_cands c) (eff_cap (c_heur c) (c_cap c)) (c_batches c) []) as F.
